@@ -21,6 +21,12 @@ CHECKS = {
  "C03": ("exploration", "stateless ClaimHash injectivity sweep + twin-branch quorum executions compared by full store diff",
          "Held on the pairs and quorums explored: every listed field of all six claim types is varied (plus separator re-splits of free-form fields) and hashes compared; each (type, field, voter position) is also run as a real quorum on a branched state and compared byte-for-byte with the all-honest branch.",
          "Full multistore dumps of two copy-on-write branches; claims built in-process.", "4 C03"),
+ "C07": ("exploration", "crash monitor on real FinalizeBlock/Commit over aging workloads (pending objects x confirm patterns x governance outcomes)",
+         "Held on the blocks executed: every block of generated histories that age unconfirmed oracle sets, batches and bridge calls past the signed window, churn the oracle set and end proposals in pass/fail/panic is a real FinalizeBlock+Commit; any error or panic is a violation.",
+         "Universal over reachable states, only sampled; operations enter through the message router / EVM keeper.", "4 C07"),
+ "C16": ("exploration", "registry-discovered authority messages x hostile authorities on state branches with full multistore diff; compare-and-set monitor for raw store updates",
+         "Held on the (type, payload, authority) triples explored: every routable message with an authority field is discovered from the interface registry; rejected variants must leave the complete multistore byte-identical (also when the handler is run without the tx-level discard), positive controls with the governance authority must succeed.",
+         "Types without a curated valid payload are listed as uncovered in the evidence (2 IBC-core types).", "4 C16"),
 }
 NOT_YET = {}
 def load_props():
